@@ -47,7 +47,31 @@ package taskfile
 //@   ensures result == "" ==> cachedSum == checksum       -- no prompt only for the checksum approved last time      [C20]
 //@   ensures cachedSum == "" || cachedSum != checksum ==> result != ""                                               [C20]
 
+// The three files of a cache entry (content, checksum, timestamp) are each REPLACED as a whole, under their own
+// name (os.WriteFile truncates: nothing of a superseded version survives in the file), and read back from the
+// same name: what is run from the cache is exactly the content that was approved.
+//@ ghost var cachePath string scratch
+//@ func (*CacheNode).Write
+//@   site (*CacheNode).Location#1 ghost cachePath := result
+//@   site os.WriteFile#1 requires arg0 == cachePath && arg1 == data                                                  [C20]
+//@ func (*CacheNode).Read
+//@   site (*CacheNode).Location#1 ghost cachePath := result
+//@   site os.ReadFile#1 requires arg0 == cachePath                                                                   [C20]
+//@ func (*CacheNode).WriteChecksum
+//@   site (*CacheNode).checksumPath#1 ghost cachePath := result
+//@   site os.WriteFile#1 requires arg0 == cachePath && len(arg1) == len(checksum)                                    [C20]
+//@ func (*CacheNode).ReadChecksum
+//@   site (*CacheNode).checksumPath#1 ghost cachePath := result
+//@   site os.ReadFile#1 requires arg0 == cachePath                                                                   [C20]
+//@ func (*CacheNode).WriteTimestamp
+//@   site (*CacheNode).timestampPath#1 ghost cachePath := result
+//@   site os.WriteFile#1 requires arg0 == cachePath                                                                  [C20]
+//@ func (*CacheNode).ReadTimestamp
+//@   site (*CacheNode).timestampPath#1 ghost cachePath := result
+//@   site os.ReadFile#1 requires arg0 == cachePath                                                                   [C20]
+
 //@ ghost var cacheReadOK bool scratch
+//@ ghost var cacheTried bool scratch
 //@ func (*Reader).readRemoteNodeContent
 //@   init dlFailed := false
 //@   init promptOKd := false
@@ -62,6 +86,11 @@ package taskfile
 //@   ensures dlFailed && cacheFound ==> result.1 == nil && result.0 == cachedBytes   -- the cache keeps tasks runnable  [C20]
 //@   init cacheReadOK := false
 //@   site (*CacheNode).Read#1 ghost cacheReadOK := result.1 == nil
+// no answer - in particular no refusal (a deadline that has passed, a cancelled context) - is given before the
+// cached copy was looked for
+//@   init cacheTried := false
+//@   site (*CacheNode).Read#1 ghost cacheTried := true
+//@   ensures cacheTried                                                                                              [C20]
 //@   ensures dlFailed && cacheReadOK ==> result.1 == nil && result.0 == cachedBytes   -- whenever a cached copy could be read (valid or expired, forced download or not)  [C20]
 
 // plain http is refused unless --insecure, for every kind of remote node
